@@ -154,6 +154,59 @@ pub fn run(ctx: &Ctx, ev: &mut Ev) {
             }
         }
     }
+    // (a3) dense: maximal-expansion streams of every length across the one-shot APIs' allocation decisions (first
+    // allocation = min(next_power_of_two(without-replacement bound), with-replacement bound), reserve + retry on
+    // OutputFull), ending in tails that leave the converter owing output when the input runs out
+    if ctx.want("dense") && !tiny {
+        let sm = ctx.stride_mult() as usize;
+        let maxn: usize = if th { 6000 } else { 1500 };
+        let near = |x: usize| -> bool { let mut p = 64usize; while p <= 1 << 17 { if x + 6 >= p && x <= p + 6 { return true; } p *= 2; } let m = x % 4096; x > 4000 && (m <= 6 || m >= 4090) };
+        let encs: [&'static Encoding; 14] = [ISO_2022_JP, GB18030, GBK, UTF_16LE, UTF_16BE, UTF_8, EUC_KR, EUC_JP, SHIFT_JIS, BIG5, WINDOWS_1252, X_USER_DEFINED, REPLACEMENT, IBM866];
+        for &enc in encs.iter() {
+            let heads: Vec<Vec<u8>> = if enc == UTF_16LE { vec![vec![0x00, 0xD8], vec![0x00, 0x4E], vec![0x3D, 0xD8, 0xA9, 0xDC]] } else if enc == UTF_16BE { vec![vec![0xD8, 0x00], vec![0x4E, 0x00], vec![0xD8, 0x3D, 0xDC, 0xA9]] }
+                else if enc == UTF_8 { vec![vec![0xFF], vec![0xC3, 0xA9], vec![0xE2, 0x82, 0xAC]] }
+                else if enc == ISO_2022_JP { vec![vec![0xFF], vec![0x1B, 0x28, 0x49, 0x31], vec![0x0E]] }
+                else if enc == GB18030 || enc == GBK { vec![vec![0xFF], vec![0xA1, 0xA1], vec![0x81, 0x30, 0x81, 0x30]] }
+                else if enc == EUC_KR { vec![vec![0xFF], vec![0xB0, 0xA1]] } else if enc == EUC_JP { vec![vec![0xFF], vec![0x8E, 0xB1], vec![0xA4, 0xA2]] }
+                else if enc == SHIFT_JIS { vec![vec![0xB1], vec![0x82, 0xA0], vec![0xFF]] } else if enc == BIG5 { vec![vec![0xFF], vec![0x88, 0x62], vec![0xA4, 0x40]] }
+                else { vec![vec![0x80], vec![0xE9]] };
+            let tails: Vec<&[u8]> = if enc == ISO_2022_JP { vec![&[], &[0x1B], &[0x1B, 0x24], &[0x1B, 0x28], &[0x24], &[0x1B, 0x24, 0x42, 0x24]] } else if enc == GB18030 || enc == GBK { vec![&[], &[0x81], &[0x81, 0x30], &[0x81, 0x30, 0x81], &[0x61]] }
+                else if enc == UTF_16LE || enc == UTF_16BE { vec![&[], &[0xD8], &[0x00, 0xD8], &[0xD8, 0x00], &[0x61, 0x00, 0x61]] } else if enc == UTF_8 { vec![&[], &[0xC3], &[0xE2, 0x82], &[0xF0, 0x9F, 0x92], &[0x61]] }
+                else if enc == EUC_JP { vec![&[], &[0x8E], &[0x8F], &[0x8F, 0xA1], &[0x61]] } else { vec![&[], &[0x81], &[0x61]] };
+            for n in 0..=(if th { 1 << 16 } else { 1 << 14 }) {
+                if n > maxn && !near(n) && !near(n * 2) && !near(n * 3) && !near(n * 4) { continue; }
+                for (hi, h) in heads.iter().enumerate() {
+                    if n * h.len() > (if th { 1 << 17 } else { 1 << 15 }) { continue; }
+                    if !ev.mine() { continue; }
+                    if sm > 1 && n > 64 && (n + hi) % sm != (ctx.seed as usize) % sm && !near(n * h.len()) && !near(n * h.len() * 3) && !near(n * 3) { continue; }
+                    let mut v: Vec<u8> = Vec::with_capacity(n * h.len() + 8);
+                    for _ in 0..n { v.extend_from_slice(h); }
+                    let l0 = v.len();
+                    for t in tails.iter() { v.truncate(l0); v.extend_from_slice(t); check_decode(&mut drv, ev, enc, &v, (n + hi) % 16, true); }
+                    // the same after an ASCII prefix (valid_up_to > 0 takes the other allocation arm)
+                    if n % 3 == 0 && enc.is_ascii_compatible() { let mut w = b"abcdefg".to_vec(); w.extend_from_slice(&v[..l0]); w.extend_from_slice(tails[(n / 3) % tails.len()]); check_decode(&mut drv, ev, enc, &w, n % 16, true); }
+                }
+            }
+        }
+        // encode: runs of one character (two-byte, escape-switching, unmappable -> NCR growth) of every length, tails that
+        // leave ISO-2022-JP owing its final escape or force a last-moment NCR
+        let heads: [u32; 9] = [0xE9, 0x3042, 0xAC00, 0x4E00, 0xFF71, 0xA5, 0x2603, 0x1F4A9, 0x80];
+        let tails: [&[u32]; 5] = [&[], &[0x61], &[0xA5], &[0x2603], &[0x3042, 0x1F4A9]];
+        let emax = if th { 3000 } else { 700 };
+        for &enc in encoder_families().iter() {
+            if enc == UTF_8 || enc == UTF_16LE { continue; }
+            for n in 0..=(if th { 1 << 14 } else { 1 << 12 }) {
+                if n > emax && !near(n) && !near(n * 2) && !near(n * 3) { continue; }
+                for (hi, h) in heads.iter().enumerate() {
+                    if !ev.mine() { continue; }
+                    if sm > 1 && n > 64 && (n + hi) % sm != (ctx.seed as usize) % sm && !near(n) && !near(n * 2) && !near(n * 3) { continue; }
+                    let mut t: Vec<u32> = vec![*h; n];
+                    for tl in tails.iter() { t.truncate(n); t.extend_from_slice(tl); check_encode(&mut drv, ev, enc, &t, (n + hi) % 16, true); }
+                    if n % 3 == 0 { let mut w: Vec<u32> = vec![0x61; 5]; w.extend_from_slice(&t[..n]); w.extend_from_slice(tails[(n / 3) % tails.len()]); check_encode(&mut drv, ev, enc, &w, n % 16, true); }
+                }
+            }
+        }
+    }
     // (b) hostile tails after long valid prefixes (reserve retry path: many errors / unmappables after a long valid prefix)
     if ctx.want("random") {
         let mut r = ctx.rng(11);
